@@ -41,7 +41,7 @@ ASSUMPTIONS = [
     'a seed of type numpy.random.Generator is in the domain only where documented or where chi itself passes one',
     'side effects on the global generators are not judged (the property speaks about results only)']
 REQUIRED = ['entry:' + e for e in ENTRIES] + ['indep', 'gen', 'other:trunc', 'step:npseed', 'step:pyseed',
-                                               'same_family_outputs', 'times:repeated']
+                                               'same_family_outputs', 'times:repeated', 'seed:numpy_int']
 SEEDS = st.integers(0, 2 ** 31 - 2)
 GEN_ENTRIES = ('em', 'pop', 'pred', 'poppred', 'prior', 'post')
 DF_ENTRIES = ('prior', 'post', 'pam')
@@ -246,6 +246,8 @@ def _spec(draw):
     # Hypothesis repeats small integers (0 in ~13% of the draws): the seed of the statistical clause is mixed with the
     # rest of the spec so that different cases see different noise streams (the spec records the seed actually used)
     d['stat_seed'] = stats.derive_seed(draw(SEEDS), spec_key(d))
+    # integer seeds also arrive as numpy integers (elements of np.arange, rng.integers(...), base + offset)
+    d['seed_form'] = draw(st.sampled_from(['int', 'int', 'int', 'np.int64', 'np.int32']))
     return d
 
 
@@ -314,6 +316,8 @@ def _build(spec):
     import pints
     entry, t = spec['entry'], spec['target']
     meta = dict(random=True, lags=[1], cols=True)
+    # entries whose noise matrix consists of standardised continuous noise terms only (no discrete row choices)
+    meta['continuous'] = entry in ('em', 'pred', 'prior', 'post', 'pam') or (entry == 'poppred' and bool(t.get('pooled')))
 
     if entry == 'em':
         kind = t['kind']
@@ -599,6 +603,8 @@ def classify(spec):
             labs.append('pop:' + lf['kind'])
     if spec['target'].get('ns', 1) is None:
         labs.append('ns=None')
+    if spec.get('seed_form', 'int') != 'int':
+        labs.append('seed:numpy_int')
     tm = spec['target'].get('times')
     if spec['entry'] in ('pred', 'poppred', 'prior', 'post', 'pam') and tm and len(set(tm)) < len(tm):
         labs.append('times:repeated')
@@ -654,6 +660,22 @@ def check(case):
         return
     call, noise, meta = built
     seeds = s['seeds']
+    form = s.get('seed_form', 'int')
+    if form != 'int':
+        conv = getattr(np, form[3:])
+        call_int, noise_int, ac_int = call, noise, meta.get('array_call')
+
+        def call(seed, *a, **k):
+            return call_int(conv(seed) if isinstance(seed, int) else seed, *a, **k)
+        if noise_int is not None:
+            def noise(n, seed):
+                return noise_int(n, conv(seed) if isinstance(seed, int) else seed)
+        if ac_int is not None:
+            meta = dict(meta, array_call=lambda seed, n: ac_int(conv(seed) if isinstance(seed, int) else seed, n))
+        with case.clause('seed_form:' + entry):
+            a, b = canon(call_int(seeds['A'])), canon(call(seeds['A']))
+            case.true(same(a, b), 'seed %d passed as %s gives another result than the same seed passed as int (%s)' % (
+                seeds['A'], form, _describe(a, b)), kind='differs')
     if meta.get('diff_ns'):
         def dcall(seed):
             return call(seed, meta['diff_ns'])
@@ -787,6 +809,19 @@ def check(case):
                                                                  '/ dimensions): %s' % (a, b, c, d))
             allc = [j for j in range(c) if np.ptp(E[:, j]) > 0]
             pick = sorted(set([allc[0], allc[len(allc) // 2], allc[-1]])) if allc else []
+            if meta.get('continuous'):
+                # independent continuous noise terms never coincide: pairs of (numerically) equal values within a
+                # column mean that a random stream was used twice (same seed for two samples / models / individuals)
+                from scipy import stats as sps
+                for j in pick:
+                    col = np.sort(E[:, j])
+                    tol = 1e-11 * np.maximum(1.0, np.abs(col[1:]))
+                    dup = int(np.sum(np.diff(col) <= tol))
+                    lam = 10.0 * n * n * 1e-11          # generous bound on the expected number of chance pairs
+                    pv = float(sps.poisson.sf(dup - 1, lam)) if dup > 0 else 1.0
+                    out[('indep_rows:' + entry, j, 'dup')] = (
+                        pv, 'duplicates', 'column %d of %d: %d pairs of equal noise values among %d samples / '
+                        'individuals / time points (continuous noise: about %.1e expected by chance)' % (j, c, dup, n, lam / 10))
             for j in pick:
                 for lag in meta['lags']:
                     L = 1 if lag == 1 else max(2, n // N_IDS_DF)
